@@ -313,19 +313,19 @@ def universe(soup, level):
     return out
 
 
-def histories_exhaustive(src, depth, first, later):
-    """every history of exactly `depth` operations; universe level `first` for
-    the first step, `later` for the following ones"""
+def histories_exhaustive(src, depth, first, later, prefix=()):
+    """every history of exactly `depth` operations that starts with `prefix`;
+    universe level `first` for the first step, `later` for the following ones"""
     out = []
 
-    def go(prefix, d):
+    def go(pre, d):
         if d == 0:
-            out.append(tuple(prefix))
+            out.append(tuple(pre))
             return
-        soup = replay(src, prefix)
-        for op in universe(soup, later if prefix else first):
-            go(prefix + [op], d - 1)
-    go([], depth)
+        soup = replay(src, pre)
+        for op in universe(soup, later if pre else first):
+            go(pre + [op], d - 1)
+    go(list(prefix), depth - len(prefix))
     return out
 
 
@@ -369,8 +369,8 @@ def _gen_chunk(arg):
     out = []
     for it in items:
         if kind == 'exh':
-            src, depth, first, later = it
-            out += [(src, h) for h in histories_exhaustive(src, depth, first, later)]
+            src, depth, first, later, prefix = it
+            out += [(src, h) for h in histories_exhaustive(src, depth, first, later, prefix)]
     return out
 
 
@@ -423,8 +423,17 @@ def run(prop, tier):
     # 3. thorough: length 3 exhaustively on tiny documents
     three = [] if quick else [r'\a{x}\a{x}', r'\begin{e}{\b}\b\end{e}', r'\item a\item a', r'{g}$m$']
     gen += [('exh', [(d, 3, 0, 0)]) for d in three]
+    # one generation task per (document, first operation), so that the work spreads
+    tasks = []
+    for _, items in gen:
+        for src, depth, first, later in items:
+            if depth == 1:
+                tasks.append(('exh', [(src, depth, first, later, ())]))
+            else:
+                for op in universe(impl.parse(src), first):
+                    tasks.append(('exh', [(src, depth, first, later, (op,))]))
     cases = []
-    for part in pmap(_gen_chunk, gen):
+    for part in pmap(_gen_chunk, tasks):
         cases.extend(part)
     n_exh = len(cases)
     # 4. random histories (generated in parallel, one random stream per chunk)
@@ -438,9 +447,11 @@ def run(prop, tier):
 
     lines = ['X edit ' + ' '.join(map(str, encode(src, ops))) for src, ops in cases]
     out_model = corr.run_driver(lines)
-    out_impl = []
-    for part in pmap(_impl_chunk, chunked(cases, NPROC * 4)):
-        out_impl.extend(part)
+    # round-robin chunks: the long random histories are spread over all workers
+    k = NPROC * 4
+    out_impl = [None] * len(cases)
+    for i, part in enumerate(pmap(_impl_chunk, [cases[i::k] for i in range(k)])):
+        out_impl[i::k] = part
 
     for (src, ops), om, oi in zip(cases, out_model, out_impl):
         desc = (src, tuple(map(str, ops)))
